@@ -54,15 +54,21 @@ def _dimension_dirname(name, value):
     """
     Return the directory name for one dimension. Names and values are taken
     unchecked from WMS requests (TIME, ELEVATION, DIM_*), so path separators
-    are replaced to keep the tiles below the cache directory.
+    are escaped to keep the tiles below the cache directory. '%' is escaped
+    too, so different values never share a directory (the time interval
+    'a/b' and the value 'a_b' are different tiles).
 
     >>> _dimension_dirname('time', '/../../../x')
-    'time-_.._.._.._x'
+    'time-%2F..%2F..%2F..%2Fx'
+    >>> _dimension_dirname('time', 'a/b') != _dimension_dirname('time', 'a_b')
+    True
+    >>> _dimension_dirname('time', 'a/b') != _dimension_dirname('time', 'a%2Fb')
+    True
     """
-    dirname = name + "-" + str(value)
+    dirname = (name + "-" + str(value)).replace('%', '%25')
     for sep in ('/', '\\', os.sep, os.altsep):
         if sep:
-            dirname = dirname.replace(sep, '_')
+            dirname = dirname.replace(sep, '%%%02X' % ord(sep))
     return dirname
 
 
